@@ -369,7 +369,7 @@ def matrix_pivot(m, sign=False):
     """
     mp = deepcopy(m)
     n = len(mp)
-    p = matrix_identity(n)  # permutation matrix
+    p = [list(row) for row in matrix_identity(n)]  # permutation matrix (a copy: matrix_identity is memoised)
     num_rowswap = 0
     for j in range(0, n):
         row = j
